@@ -178,7 +178,11 @@ func RunAsyncQueryForNewPipeline(conn *websocket.Conn, qid uint64, simpleNode *s
 	// blocked forever on a send to websocketR used to be left behind by every websocket query.)
 	done := make(chan struct{})
 
-	go listenToConnection(qid, websocketR, done, conn)
+	listenerExited := make(chan struct{})
+	go func() {
+		defer close(listenerExited)
+		listenToConnection(qid, websocketR, done, conn)
+	}()
 
 	go func() {
 		for {
@@ -194,7 +198,19 @@ func RunAsyncQueryForNewPipeline(conn *websocket.Conn, qid uint64, simpleNode *s
 		}
 	}()
 
-	defer close(done)
+	defer func() {
+		close(done)
+		// The server releases the hijacked connection as soon as the websocket handler returns; a
+		// listener still inside conn.ReadJSON at that moment reads from a released connection (nil
+		// pointer dereference in fasthttp, which takes the process down). Interrupt its read and wait
+		// for it to leave before returning.
+		_ = conn.SetReadDeadline(time.Now())
+		select {
+		case <-listenerExited:
+		case <-time.After(2 * time.Second):
+			log.Warnf("qid=%d, RunAsyncQueryForNewPipeline: websocket listener did not stop in time", qid)
+		}
+	}()
 
 	_, _, _, err := RunQueryForNewPipeline(conn, qid, simpleNode, aggs, timechartSimpleNode, timechartAggs, qc, sizeLimit)
 	if err != nil {
